@@ -53,14 +53,24 @@ LEVEL_NOTE = ('Trusted: NumPy, Hypothesis, evaluation of the operators '
 DESIGN_REF = 'DESIGN.md section 5, C06'
 BUDGET = {'quick': 8000, 'thorough': 60000}
 TOLERANCES = {
-    'fd': 'min_k |q(h_k) - D(d)|_max <= 256*eps^(2/3)*S, S = max(|D(d)|, '
-          '|q|, |op(x)|)_max; h_k = h0*r^-k, k = 0..5 (float64: h0=2^-3, '
-          'r=8; float32: h0=2^-2, r=4; up to 4 more steps while the error '
-          'still falls at second order), base point and direction normalised '
-          'to max-norm <= 2 resp. 1; 256*eps^(2/3) = 9.5e-9 (float64), '
-          '6.2e-3 (float32); observed on the unchanged tree: <= 19*eps^(2/3)*S',
+    'fd': 'min_k |q(h_k) - D(d)|_max <= 256*eps^(2/3)*S + 16*eps*T/h_k*, '
+          'k* the step of the minimum. S = max(|D(d)|, |q|, |op(x)|)_max; '
+          'first term: truncation C*h^2 against rounding balanced on a '
+          'ladder of ratio r (observed on the unchanged tree: <= '
+          '19*eps^(2/3)*S). Second term = rounding floor of the quotient: '
+          'T = largest magnitude among all intermediate values (arguments '
+          'and results of every node of the reference evaluation at x, at '
+          'least S); op(x +- h d) may be a cancelling combination of terms '
+          'of size T, so each evaluation carries an absolute error ~eps*T '
+          'and the quotient eps*T/h (16: operation count, leaf-internal '
+          'sums); it matters only when S << T (derivative ~0 through '
+          'cancellation). h_k = h0*r^-k, k = 0..5 (float64: h0=2^-3, r=8; '
+          'float32: h0=2^-2, r=4; up to 4 more steps while the error still '
+          'falls at second order), base point and direction normalised to '
+          'max-norm <= 2 resp. 1; 256*eps^(2/3) = 9.5e-9 (float64), 6.2e-3 '
+          '(float32)',
     'order': 'best slope log(e_j/e_min)/log(h_j/h_min) over j before the '
-             'minimum >= 1.5, unless e_0 <= 1e4*eps*S (difference quotient '
+             'minimum >= 1.5, unless e_0 <= 1e4*eps*max(S,T) (difference quotient '
              'exact: affine / quadratic maps)',
     'linear': '|D(a d1 + c d2) - a D(d1) - c D(d2)|_max <= 256*eps*(|a| '
               'max(|D d1|, S) + |c| max(|D d2|, S)), S the scale of the '
@@ -638,17 +648,38 @@ def fd_errors(env, b, D, x, d, eps):
                 errs[-1] > 0 and errs[-2] / errs[-1] >= ratio ** 1.5:
             hs.append(hs[-1] / ratio)
     S = max(S, qmax)
-    return errs, hs, S, Dd
+    return errs, hs, S, Dd, term_magnitude(env, b, x)
 
 
-def judge(errs, hs, S, eps):
+def term_magnitude(env, b, x):
+    """Largest magnitude T among all intermediate values (arguments and
+    results of every node) of the evaluation of ``b`` at ``x``: op(x) may be
+    a cancelling combination of terms of that size, so each evaluated
+    op(x +- h d) carries an absolute rounding error of about eps*T, however
+    small the result is."""
+    tr = Tracer(env)
+    try:
+        tr.ev(b, x)
+    except Exception:  # noqa
+        return ex.vmaxabs(x)
+    return tr.tmax
+
+
+def judge(errs, hs, S, eps, T=0.0):
     """None if the ladder accepts D(d), else a text."""
-    tol = 256.0 * eps ** (2.0 / 3.0) * S
     k = int(np.argmin(errs))
     emin = errs[k]
+    # rounding floor of the quotient at the accepted step: two values with
+    # absolute error ~eps*T each, divided by 2h (16: operation count /
+    # leaf-internal sums)
+    T = max(T, S)
+    floor = 16.0 * eps * T / hs[k]
+    tol = 256.0 * eps ** (2.0 / 3.0) * S + floor
     if not emin <= tol:
-        return 'min error {:.3g} > tol {:.3g} (S={:.3g}); ladder {}'.format(
-            emin, tol, S, ' '.join('{:.2g}'.format(e) for e in errs))
+        return ('min error {:.3g} > tol {:.3g} (S={:.3g}, T={:.3g}); ladder '
+                '{}'.format(emin, tol, S, T,
+                            ' '.join('{:.2g}'.format(e) for e in errs)))
+    S = T
     if errs[0] <= 1e4 * eps * S:
         return None
     best = 0.0
@@ -671,10 +702,15 @@ class Tracer(ex.Interp):
     def __init__(self, *args, **kwargs):
         super(Tracer, self).__init__(*args, **kwargs)
         self.inputs = {}
+        self.tmax = 0.0     # largest magnitude of any intermediate value
 
     def ev(self, b, x):
         self.inputs.setdefault(id(b), x)
-        return super(Tracer, self).ev(b, x)
+        self.tmax = max(self.tmax, ex.vmaxabs(x))
+        r = super(Tracer, self).ev(b, x)
+        if ex.vfinite(r):
+            self.tmax = max(self.tmax, ex.vmaxabs(r))
+        return r
 
 
 def _generic_dir(env, key, x):
@@ -720,8 +756,8 @@ def _localise(env, root, x, eps, mode, exc_type=None):
             d = _generic_dir(env, b.node['dom'], xb)
             if d is None:
                 continue
-            errs, hs, S, _ = fd_errors(env, b, D, xb, d, eps)
-            if judge(errs, hs, S, eps) is not None:
+            errs, hs, S, _, T = fd_errors(env, b, D, xb, d, eps)
+            if judge(errs, hs, S, eps, T) is not None:
                 return b
         except Exception:  # noqa
             continue
@@ -791,7 +827,20 @@ def _run_ufunc_enum(desc):
 # --------------------------------------------------------------------------
 # the case
 
+class _OutOfRange(Exception):
+    """Evaluation left the floating-point range (Python floats on field
+    domains raise OverflowError / ZeroDivisionError): input-range matter."""
+
+
 def run_case(desc):
+    try:
+        return _run_case(desc)
+    except _OutOfRange:
+        return Outcome('trivial', strata=['trivial:overflow'],
+                       notes={'overflow': 1})
+
+
+def _run_case(desc):
     if desc.get('what') == 'ufunc-enum':
         return _run_ufunc_enum(desc)
     types = desc['types']
@@ -847,6 +896,9 @@ def run_case(desc):
         fx = ex.Interp(env, margin=MARGIN).ev(root, x)
     except ex.NearNondiff:
         return Outcome('trivial', strata=['trivial:near-nondiff'])
+    except ex.RefOverflow:
+        return Outcome('trivial', strata=['trivial:overflow'],
+                       notes={'overflow': 1})
     if not ex.vfinite(fx) or ex.vmaxabs(fx) > 1e6:
         return Outcome('trivial', strata=['trivial:overflow'])
 
@@ -867,6 +919,8 @@ def run_case(desc):
                 ex.node_pattern(root)))
     except (Violation, HarnessError):
         raise
+    except (OverflowError, ZeroDivisionError):
+        raise _OutOfRange()
     except Exception as e:  # noqa
         where, csig = crash_signature(PROPERTY, e)
         if where != 'odl':
@@ -918,6 +972,8 @@ def run_case(desc):
         except (Violation, HarnessError):
             raise
         except Exception as e:  # noqa
+            if isinstance(e, (OverflowError, ZeroDivisionError)):
+                raise _OutOfRange()
             where, csig = crash_signature(PROPERTY, e)
             if where != 'odl':
                 raise
@@ -946,10 +1002,10 @@ def run_case(desc):
     # ladder ----------------------------------------------------------------
     Smax = 0.0
     for i, d in enumerate(dirs):
-        errs, hs, S, Dd = guard(lambda: fd_errors(env, root, D, x, d, eps),
-                                'deriv-call', d)
+        errs, hs, S, Dd, T = guard(
+            lambda: fd_errors(env, root, D, x, d, eps), 'deriv-call', d)
         Smax = max(Smax, S)
-        verdict = judge(errs, hs, S, eps)
+        verdict = judge(errs, hs, S, eps, T)
         if verdict is not None:
             culprit = _localise(env, root, x, eps, 'fd')
             raise Violation('C06|fd|{}|{}'.format(
